@@ -14,6 +14,8 @@
 
 package util
 
+import "unicode/utf16"
+
 const (
 	c1 = 0xcc9e2d51
 	c2 = 0x1b873593
@@ -33,11 +35,12 @@ func NewMurmurHash(seed int) *MurmurHash {
 
 // HashUnencodedChars check if has unencoded chars
 func (m *MurmurHash) HashUnencodedChars(inputStr string) int {
-	input := []rune(inputStr)
+	// guava hashes the chars of a Java String, i.e. UTF-16 code units
+	input := utf16.Encode([]rune(inputStr))
 	h1 := int32(m.seed)
 
 	for i := 1; i < len(input); i += 2 {
-		k1 := int32(input[i-1] | (input[i] << 16))
+		k1 := int32(uint32(input[i-1]) | (uint32(input[i]) << 16))
 		k1 = mixK1(k1)
 		h1 = mixH1(h1, k1)
 	}
